@@ -34,8 +34,11 @@ class CallbackController:
         self.arm = None  # (name, k)
         self.fired = False
         self.log = []
+        self.suspended = False
 
     def hit(self, name):
+        if self.suspended:
+            return  # the harness is building argument objects: not part of the operation under test
         n = self.counts.get(name, 0) + 1
         self.counts[name] = n
         if self.arm is not None and self.arm[0] == name and self.arm[1] == n and not self.fired:
@@ -107,8 +110,9 @@ KINDS = {
     "links": dict(name="links", ann="KeyedList[Keyed, str]",
                   conf=[["KeyedList", []], ["KeyedList", [["Keyed", {"key": "a"}]]],
                         ["list", [["Keyed", {"key": "a", "n": 1}], ["Keyed", {"key": "b"}]]],
-                        ["KeyedList", [["Keyed", {"key": "a", "n": 1}], ["Keyed", {"key": "b"}]]]],
-                  small_conf=[2, 3],
+                        ["KeyedList", [["Keyed", {"key": "a", "n": 1}], ["Keyed", {"key": "b"}]]],
+                        ["KeyedListK", [["Keyed", {"key": "a"}], ["Keyed", {"key": "b"}]]]],  # user key function
+                  small_conf=[2, 3, 4],
                   bad=[["list", [5]], ["RawKeyedList", [1, 2]]], mut="KeyedList[Keyed, str]([Keyed('d')])", mut_spec=["KeyedList", [["Keyed", {"key": "d"}]]],
                   item="link", items=[["Keyed", {"key": "a"}], ["Keyed", {"key": "b", "n": 1}], "c"], bad_items=[5],
                   nested_item="Keyed"),
@@ -116,8 +120,9 @@ KINDS = {
                   conf=[["KeyedSet", []], ["KeyedSet", [["Keyed", {"key": "a"}]]],
                         ["list", [["Keyed", {"key": "a", "n": 1}], ["Keyed", {"key": "b"}]]],
                         ["KeyedSet", [["Keyed", {"key": "a", "n": 1}], ["Keyed", {"key": "b"}]]],
-                        ["KeyedSetE", [["Keyed", {"key": "a"}], ["Keyed", {"key": "b"}]]]],  # enforce_item_equivalence=True: add() can refuse
-                  small_conf=[2, 3, 4],
+                        ["KeyedSetE", [["Keyed", {"key": "a"}], ["Keyed", {"key": "b"}]]],  # enforce_item_equivalence=True: add() can refuse
+                        ["KeyedSetK", [["Keyed", {"key": "a"}], ["Keyed", {"key": "b"}]]]],  # user key function
+                  small_conf=[2, 3, 4, 5],
                   bad=[["list", [5]], ["RawKeyedSet", [1, 2]]], mut="KeyedSet[Keyed, str]([Keyed('d')])", mut_spec=["KeyedSet", [["Keyed", {"key": "d"}]]],
                   item="mark", items=[["Keyed", {"key": "a"}], ["Keyed", {"key": "b", "n": 1}], "c"], bad_items=[5],
                   nested_item="Keyed"),
@@ -439,6 +444,17 @@ class Env:
         self.KeyedList, self.KeyedSet = ns["KeyedList"], ns["KeyedSet"]
         self.MISSING = ns["MISSING"]
         if warm:
+            if rec.get("opts", {}).get("base_first"):
+                # first-use order: the PARENT class is bootstrapped, instantiated and reset before the judged subclass is touched
+                base = ns.get(rec["name"] + "Base")
+                if base is not None:
+                    try:
+                        b = base()
+                        b.reset()
+                        for n in list(base.__spec_class__.attrs):
+                            getattr(b, "reset_" + n)()
+                    except Exception:
+                        pass
             self.cls.__spec_class__  # bootstrap
 
     def reset_tables(self):
@@ -473,6 +489,11 @@ class Env:
                 return self.KeyedList[self.Keyed, str]([self.mk(x) for x in spec[1]])
             if tag == "KeyedSet":
                 return self.KeyedSet[self.Keyed, str]([self.mk(x) for x in spec[1]])
+            if tag == "KeyedSetK":
+                # a user key function (a callback that can be made to raise at any of its invocations)
+                return self.KeyedSet[self.Keyed, str]([self.mk(x) for x in spec[1]], key=_cb_key)
+            if tag == "KeyedListK":
+                return self.KeyedList[self.Keyed, str]([self.mk(x) for x in spec[1]], key=_cb_key)
             if tag == "KeyedSetE":
                 return self.KeyedSet[self.Keyed, str]([self.mk(x) for x in spec[1]], enforce_item_equivalence=True)
             if tag == "RawKeyedList":
@@ -502,6 +523,11 @@ class Env:
 # ------------------------------------------------------------------------------------------------
 # transforms: pure functions returning new objects (argument objects are never mutated)
 # ------------------------------------------------------------------------------------------------
+def _cb_key(item):
+    CB.hit("keyfn")
+    return item.key
+
+
 def t_inc(v):
     CB.hit("transform")
     if isinstance(v, bool) or v is None:
@@ -626,7 +652,15 @@ def bad_default_records():
 def failing_invalidation_records():
     """a dependant whose re-default calls user code (default_factory): invalidation itself can then raise"""
     return [{"name": "CompInvFactory", "attrs": [{"kind": "int", "default": "lit"}, {"kind": "nums", "default": "attr_factory"}, {"kind": "str", "default": "lit"}],
-             "opts": {"invalidated_by": {"nums": ["v"], "s": ["v"]}}}]
+             "opts": {"invalidated_by": {"nums": ["v"], "s": ["v"]}}},
+            # the attribute being written has NO value yet: putting the instance back means removing it again
+            {"name": "CompInvFactoryNoDefault", "attrs": [{"kind": "int", "default": "none"}, {"kind": "nums", "default": "attr_factory"}],
+             "opts": {"invalidated_by": {"nums": ["v"]}}},
+            # two factory-defaulted dependants BEHIND an intermediate one: when the second re-default fails, the first
+            # (a transitive dependant of the attribute being written) must be put back as well
+            {"name": "CompInvFactoryChain", "attrs": [{"kind": "int", "default": "lit"}, {"kind": "str", "default": "lit"},
+                                                       {"kind": "nums", "default": "attr_factory"}, {"kind": "scores", "default": "attr_factory"}],
+             "opts": {"invalidated_by": {"s": ["v"], "nums": ["s"], "scores": ["s"]}}}]
 
 
 def validated_item_records():
@@ -642,6 +676,15 @@ def policy_inheritance_records():
          "opts": {"do_not_copy": ["leaf"], "inherit": "spec_sub_redefault", "sub_inherits_policy": True}},
         single("nums", "attr_dnc"),
         {"name": "AttrDncPlusOther", "attrs": [{"kind": "leaf", "default": "attr_dnc"}, {"kind": "nums", "default": "mut"}], "opts": {}},
+    ]
+
+
+def base_first_records():
+    return [
+        single("nums", "mut", inherit="plain_sub_redefault", base_first=True),
+        single("int", "lit", inherit="plain_sub_redefault", base_first=True),
+        single("nums", "mut", inherit="spec_sub_redefault", base_first=True),
+        single("leaf", "mut", inherit="plain_sub_redefault", base_first=True),
     ]
 
 
